@@ -502,6 +502,88 @@ example : Gen.SrcSmallInts.get (cBS (-128) 127) cSB (cZ (-128) 127) ltI 127 1 8 
     [(2, 127), (0, 1000), (3, -129), (2, 128), (1, 127)] 3 = Rs.Res.ok (some (-129)) := by decide
 example : Gen.SrcSmallInts.fromElem (β := Int) (cBS (-128) 127) cSB (cZ (-128) 127) ltI 127 1 8 127 3 = Rs.Res.panic := by decide
 
+/-! ### The iterator (`SmallInts::iter`, `decompress`, `impl Iterator for Iter`), session 5
+
+`iter()` builds `Iter { smallints: self, items: self.smallints.iter().enumerate() }`; `next` is
+`match self.items.next() { Some((i, &v)) => self.smallints.real_value(i, v), None => None }`; `decompress` is
+`self.iter().collect()`.  `Enumerate<slice::Iter>` is read as (counter, remaining slice); the definitions below are
+hand-written glue over the *translated* `real_value` (hence `_partial`).  Note what is at stake: `collect` stops at the
+first `None`, so a `real_value` that answered `None` inside the vector (missing `bigints` entry, failing `cast`) would
+silently truncate `decompress()` — the theorem says this never happens after any admissible history. -/
+
+/-- `Iter::next` over the translated `real_value`: value, advanced counter, rest of the slice -/
+def siterNext (lo hi : Int) (sS sB : Nat) (small : List Int) (big : List (Nat × Int)) (i : Nat) (items : List Int) :
+    Rs.Res (Option Int × Nat × List Int) :=
+  match items with
+  | [] => pure (none, i, [])
+  | v :: rest =>
+    Gen.SrcSmallInts.realValue (cBS lo hi) cSB (cZ lo hi) ltI hi sS sB small big i v >>= fun r => pure (r, i + 1, rest)
+
+/-- `Iterator::collect::<Vec<B>>()`: call `next` until it returns `None` -/
+def siterCollect (lo hi : Int) (sS sB : Nat) (small : List Int) (big : List (Nat × Int)) :
+    Nat → Nat → List Int → List Int → Rs.Res (List Int)
+  | 0, _, _, _ => Rs.Res.fuel
+  | fuel + 1, i, items, acc =>
+    match siterNext lo hi sS sB small big i items with
+    | Rs.Res.ok (some b, i', items') => siterCollect lo hi sS sB small big fuel i' items' (acc ++ [b])
+    | Rs.Res.ok (none, _, _) => Rs.Res.ok acc
+    | Rs.Res.panic => Rs.Res.panic
+    | Rs.Res.fuel => Rs.Res.fuel
+
+/-- inside the vector the translated `get` *is* the translated `real_value` at the stored small value -/
+theorem get_eq_realValue_of_lt (lo hi : Int) (sS sB : Nat) (small : List Int) (big : List (Nat × Int)) (i : Nat)
+    (h : i < small.length) :
+    Gen.SrcSmallInts.get (cBS lo hi) cSB (cZ lo hi) ltI hi sS sB small big i
+      = Gen.SrcSmallInts.realValue (cBS lo hi) cSB (cZ lo hi) ltI hi sS sB small big i small[i] := by
+  have e1 : Rs.idx small i = Rs.Res.ok small[i] := Rs.idx_ok h
+  simp only [Gen.SrcSmallInts.get, h, e1, decide_true, if_true, Rs.Res.ok_bind, Rs.Res.pure_eq_ok,
+    Gen.SrcSmallInts.realValue]
+
+theorem siterCollect_of_get (lo hi : Int) (sS sB : Nat) (small : List Int) (big : List (Nat × Int)) (l : List Int)
+    (hlen : small.length = l.length)
+    (hget : ∀ i, Gen.SrcSmallInts.get (cBS lo hi) cSB (cZ lo hi) ltI hi sS sB small big i = Rs.Res.ok l[i]?) :
+    ∀ (k i : Nat), i ≤ l.length → l.length - i < k →
+      siterCollect lo hi sS sB small big k i (small.drop i) (l.take i) = Rs.Res.ok l := by
+  intro k
+  induction k with
+  | zero => intro i _ h; omega
+  | succ k ih =>
+    intro i hile hk
+    unfold siterCollect
+    by_cases hlt : i < l.length
+    · have hs : i < small.length := by omega
+      have hr := get_eq_realValue_of_lt lo hi sS sB small big i hs
+      rw [hget i, List.getElem?_eq_getElem hlt] at hr
+      rw [List.drop_eq_getElem_cons hs]
+      simp only [siterNext, ← hr, Rs.Res.ok_bind, Rs.Res.pure_eq_ok]
+      have : l.take i ++ [l[i]] = l.take (i + 1) := by
+        rw [List.take_add_one, List.getElem?_eq_getElem hlt]; rfl
+      rw [this]
+      exact ih (i + 1) (by omega) (by omega)
+    · have hi' : i = l.length := by omega
+      subst hi'
+      rw [List.drop_of_length_le (by omega)]
+      simp [siterNext, Rs.Res.pure_eq_ok]
+
+/-- **`smallints.iter().collect()` / `decompress()` on the generated code is the plain vector**: run any admissible
+history with the translated operations, then drain a fresh `iter()` (`next` = translated `real_value` on the next
+enumerated slot): no panic, no early stop, exactly the specification's vector. -/
+theorem smallints_iter_source_collects_partial (lo hi : Int) (sS sB : Nat) (ops : List Op) (hok : OpsOk [] ops) :
+    ∃ small big, ops.foldlM (srcStep lo hi sS sB) ([], []) = Rs.Res.ok (small, big) ∧
+      siterCollect lo hi sS sB small big (small.length + 1) 0 small [] = Rs.Res.ok (ops.foldl specStep []) := by
+  obtain ⟨small, big, hrun, hlen, hget⟩ := smallints_source_refines lo hi sS sB ops hok
+  refine ⟨small, big, hrun, ?_⟩
+  have hl : small.length = (ops.foldl specStep []).length := by
+    simpa [Gen.SrcSmallInts.len, Rs.Res.pure_eq_ok] using hlen
+  have h := siterCollect_of_get lo hi sS sB small big _ hl hget (small.length + 1) 0 (by omega) (by omega)
+  simpa using h
+
+-- evaluation on the state of the example above (i8 range; slots 0..2 small, slot 3 diverted to the map)
+example : siterCollect (-128) 127 1 8 [-7, 5, 127, 127] [(2, 127), (0, 1000), (3, -129), (2, 128), (1, 127)] 5 0
+    [-7, 5, 127, 127] [] = Rs.Res.ok [-7, 5, 127, -129] := by decide
+-- what the theorem excludes: a diverted slot without its map entry ends the drain early (silent truncation)
+example : siterCollect (-128) 127 1 8 [-7, 127, 5] [] 4 0 [-7, 127, 5] [] = Rs.Res.ok [-7] := by decide
+
 end smallints_source
 
 end RbV.Thm.C18
